@@ -92,6 +92,7 @@ pub fn run(tier: Tier) -> Run {
     let g = golden();
     let mut run = Run::new("C02", tier, "exploration");
     let mut work: Vec<(Vec<Inst>, Shape)> = universe::all_shapes(tier).into_iter().map(|s| (vec![], s)).collect();
+    work.extend(universe::scale_shapes(tier).into_iter().map(|s| (vec![], s)));
     let ctx = type_context();
     for (pre, s) in context_shapes() {
         // only conforming ones: the literal width the type demands (type 14 = 128 bit is not expressible)
